@@ -7,28 +7,17 @@ import (
 	"bytes"
 	"context"
 	"fmt"
+	"reflect"
 	"time"
 
-	"github.com/IrineSistiana/mosdns/v5/pkg/pool"
 	"github.com/IrineSistiana/mosdns/v5/zz_verif/fk"
 	"github.com/IrineSistiana/mosdns/v5/zz_verif/vs"
 )
 
-var origReleaseBuf = pool.ReleaseBuf
-
-func init() {
-	// poison released buffers: a reply buffer released while a caller still
-	// reads it shows up as a corrupted answer.
-	pool.ReleaseBuf = func(b *[]byte) {
-		if b != nil {
-			s := (*b)[:cap(*b)]
-			for i := range s {
-				s[i] = 0xDD
-			}
-		}
-		origReleaseBuf(b)
-	}
-}
+// deterministic, poisoning buffer pool: a reply buffer released while a caller
+// still reads it, or a query buffer transmitted after its release, shows up as
+// 0xDD garbage in every execution (see fk.PoisonPool)
+func init() { fk.PoisonPool() }
 
 // call is the record of one exchange issued by the harness.
 type call struct {
@@ -82,3 +71,37 @@ var bg = context.Background()
 func qname(i int) string { return fmt.Sprintf("q%d.example.", i) }
 
 var _ = vs.Active
+
+// intField reads an unexported integer-like field of *ptr by name through
+// reflection, so that the harness keeps compiling when a change turns a plain
+// counter into an atomic one (or back): int kinds are read directly, a struct
+// (atomic.Int32, the scheduler's shim around it) is searched for its integer.
+// A missing field reads as 0.
+func intField(ptr any, name string) int {
+	v := reflect.ValueOf(ptr)
+	for v.Kind() == reflect.Ptr {
+		v = v.Elem()
+	}
+	f := v.FieldByName(name)
+	if !f.IsValid() {
+		return 0
+	}
+	n, _ := intOf(f)
+	return int(n)
+}
+
+func intOf(v reflect.Value) (int64, bool) {
+	switch v.Kind() {
+	case reflect.Int, reflect.Int8, reflect.Int16, reflect.Int32, reflect.Int64:
+		return v.Int(), true
+	case reflect.Uint, reflect.Uint8, reflect.Uint16, reflect.Uint32, reflect.Uint64:
+		return int64(v.Uint()), true
+	case reflect.Struct:
+		for i := v.NumField() - 1; i >= 0; i-- { // the value is the last field of sync/atomic's types
+			if n, ok := intOf(v.Field(i)); ok {
+				return n, true
+			}
+		}
+	}
+	return 0, false
+}
